@@ -49,6 +49,23 @@ def build(seed):
     return cmds
 
 
+def errkind(r):
+    import re
+    m = re.search(r'\(error "([^"`\']*)', r)
+    return re.sub(r"[^A-Za-z]+", "-", m.group(1).strip())[:40] if m else "err"
+
+
+GENERIC_SITE = ("malformed-assignment", "assignment-unknown", "model-refused", "value-refused", "malformed-model",
+                "malformed-values")
+
+
+def site_for(cls, cmds):
+    """Classes whose symptom does not depend on the logic get a logic-independent site."""
+    if cls.split(":")[0] in GENERIC_SITE:
+        return "any"
+    return sr.site_of(cmds)
+
+
 def confirm_unsat(text):
     """The closed problem (definitions + assertions) has no model according to two references."""
     q = refs.quick(text)
@@ -115,17 +132,20 @@ def judge(cmds, res=None):
             res.inc(v.replace(":", "_")[:40])
     state = None       # answer of the last check-sat (reset by assert/push/pop)
     model = None
+    has_models = configs.has(sr.option_state(cmds)["options"], ":produce-models")
     for i, c, r, m in sr.walk(cmds, resp, last):
         k = c["k"]
         if k in ("assert", "push", "pop", "define-fun"):
             state, model = None, None
         elif k == "check-sat":
             state, model = sr.answer_of(r), None
+        elif state == "sat" and k in ("get-model", "get-value") and not has_models:
+            continue
         elif state == "sat" and k == "get-model":
             if res is not None:
                 res.evals += 1
             if sr.is_error(r):
-                bad.append((i, "model-refused", "get-model after sat answered: %s" % r[:200]))
+                bad.append((i, "model-refused:" + errkind(r), "get-model after sat answered: %s" % r[:200]))
                 continue
             v, cls, detail, model = check_model_response(cmds, m, r)
             note(v)
@@ -138,7 +158,7 @@ def judge(cmds, res=None):
             if res is not None:
                 res.evals += 1
             if sr.is_error(r):
-                bad.append((i, "value-refused", "get-value after sat answered: %s" % r[:200]))
+                bad.append((i, "value-refused:" + errkind(r), "get-value after sat answered: %s" % r[:200]))
                 continue
             try:
                 vals = outputs.parse_value_response(r, len(c["terms"]))
@@ -220,12 +240,12 @@ def case(seed):
         def pred(cand, cls=cls):
             bb, _ = judge(cand)
             return any(x[1] == cls for x in bb)
-        small = sr.shrink(cmds, pred, budget=60)
+        small = sr.shrink(cmds, pred, budget=40)
         bb, _ = judge(small)
         bb = [x for x in bb if x[1] == cls]
         if not bb:
             small, bb = cmds, [b]
-        res.viol.append(Violation(cls, sr.site_of(small), "%s (command #%d)\n%s\n--- script ---\n%s" % (
+        res.viol.append(Violation(cls, site_for(cls, small), "%s (command #%d)\n%s\n--- script ---\n%s" % (
             cls, bb[0][0], bb[0][2][:1500], gen.render(small, markers=False)), sr.witness(small, prop="C03")))
     return res
 
@@ -238,7 +258,7 @@ def replay(prop):
         for b in bad:
             if b[1] not in seen:
                 seen.add(b[1])
-                out.append(Violation(b[1], sr.site_of(cmds), "replayed: " + b[2][:300], w))
+                out.append(Violation(b[1], site_for(b[1], cmds), "replayed: " + b[2][:300], w))
         return out
     return f
 
